@@ -138,4 +138,13 @@ ResolveVars(gates, fresh, dead) ==
           THEN <<[g EXCEPT !.vars = <<{fresh}, FALSE>>]>> \o ResolveVars(Tail(gates), fresh + 1, d2)
           ELSE <<g>> \o ResolveVars(Tail(gates), fresh, d2)
 Resolved(c) == [c EXCEPT !.gates = ResolveVars(c.gates, FirstFresh(c), {})]
+
+\* Gate::add_to_graph is public: a caller may drive the translation itself and hand in ANY first fresh variable f
+\* (also one that collides with an explicit variable: the two measurements then share one outcome variable)
+ResolvedFrom(c, f) == [c EXCEPT !.gates = ResolveVars(c.gates, f, {})]
+ToGraphFrom(c, postsel, f) ==
+  LET st == AddGates([TGInit(c.n) EXCEPT !.fresh = f], c.gates, postsel)
+  IN [st.g EXCEPT !.outs = FinalOuts(st)]
+\* number of fresh variables the translation allocates (the caller's counter advances by this much)
+NumFreshUsed(c) == LET r == Resolved(c) IN Cardinality({i \in 1..Len(c.gates) : r.gates[i].vars # c.gates[i].vars})
 =============================================================================
